@@ -1,3 +1,403 @@
 import VermouthModel.Iso
+/-! Theorems about the shared reference matcher `Iso` (core Lean only). -/
 namespace Iso
+
+/-! ### `extend` against its declarative reading -/
+
+/-- every pair of `m` is acceptable against `acc` and against the earlier pairs of `m` -/
+def Valid (P : Problem) : Map → Map → Prop
+  | _, [] => True
+  | acc, x :: rest => x.2 ∈ P.tnodes ∧ okNew P acc x.1 x.2 = true ∧ Valid P (x :: acc) rest
+
+theorem mem_extend_valid (P : Problem) (ps : List Int) (acc m : Map) :
+    m ∈ extend P ps acc ↔ m.map Prod.fst = ps ∧ Valid P acc m := by
+  induction ps generalizing acc m with
+  | nil =>
+    cases m <;> simp [extend, Valid]
+  | cons p ps ih =>
+    simp only [extend, List.mem_flatMap, List.mem_filter, List.mem_map]
+    constructor
+    · rintro ⟨t, ⟨ht, hok⟩, m', hm', rfl⟩
+      have h := (ih _ _).1 hm'
+      exact ⟨by simp [h.1], ht, hok, h.2⟩
+    · intro ⟨hdom, hv⟩
+      cases m with
+      | nil => simp at hdom
+      | cons x rest =>
+        obtain ⟨p', t⟩ := x
+        simp only [List.map_cons, List.cons.injEq] at hdom
+        obtain ⟨rfl, hrest⟩ := hdom
+        exact ⟨t, ⟨hv.1, hv.2.1⟩, rest, (ih _ _).2 ⟨hrest, hv.2.2⟩, rfl⟩
+
+theorem okNew_iff (P : Problem) (acc : Map) (p t : Int) :
+    okNew P acc p t = true ↔ P.npred p t = true ∧ ∀ a ∈ acc, pairRel P a (p, t) := by
+  simp [okNew, pairRel, List.all_eq_true]
+
+theorem valid_iff (P : Problem) (acc m : Map) :
+    Valid P acc m ↔
+      (∀ x ∈ m, x.2 ∈ P.tnodes ∧ P.npred x.1 x.2 = true)
+      ∧ (∀ a ∈ acc, ∀ x ∈ m, pairRel P a x) ∧ m.Pairwise (pairRel P) := by
+  induction m generalizing acc with
+  | nil => simp [Valid]
+  | cons x rest ih =>
+    obtain ⟨p, t⟩ := x
+    simp only [Valid, okNew_iff, ih, List.mem_cons, List.pairwise_cons]
+    constructor
+    · rintro ⟨ht, ⟨hn, hacc⟩, hnode, hcross, hpw⟩
+      refine ⟨?_, ?_, ?_, hpw⟩
+      · rintro x (rfl | hx)
+        · exact ⟨ht, hn⟩
+        · exact hnode x hx
+      · rintro a ha x (rfl | hx)
+        · exact hacc a ha
+        · exact hcross a (Or.inr ha) x hx
+      · intro x hx
+        exact hcross (p, t) (Or.inl rfl) x hx
+    · rintro ⟨hnode, hcross, hhead, hpw⟩
+      refine ⟨(hnode _ (Or.inl rfl)).1, ⟨(hnode _ (Or.inl rfl)).2, fun a ha => hcross a ha _ (Or.inl rfl)⟩,
+        fun x hx => hnode x (Or.inr hx), ?_, hpw⟩
+      rintro a (rfl | ha) x hx
+      · exact hhead x hx
+      · exact hcross a ha x (Or.inr hx)
+
+/-- **`extend` = its specification** (heart of soundness and completeness). -/
+theorem mem_extend_iff (P : Problem) (ps : List Int) (m : Map) :
+    m ∈ extend P ps [] ↔ IsMatch P ps m := by
+  rw [mem_extend_valid, valid_iff]
+  constructor
+  · rintro ⟨h1, h2, _, h3⟩; exact ⟨h1, h2, h3⟩
+  · rintro ⟨h1, h2, h3⟩; exact ⟨h1, h2, by simp, h3⟩
+
+theorem mem_allMaps_iff (P : Problem) (m : Map) : m ∈ allMaps P ↔ IsMatch P P.pnodes m :=
+  mem_extend_iff P P.pnodes m
+
+/-! ### no duplicates -/
+
+theorem nodup_flatMap_of {α β} {l : List α} {f : α → List β} (hl : l.Nodup)
+    (hf : ∀ a ∈ l, (f a).Nodup)
+    (hd : ∀ a ∈ l, ∀ b ∈ l, a ≠ b → ∀ x, x ∈ f a → x ∉ f b) : (l.flatMap f).Nodup := by
+  induction l with
+  | nil => simp
+  | cons a l ih =>
+    rw [List.flatMap_cons, List.nodup_append]
+    have hl' := List.nodup_cons.1 hl
+    refine ⟨hf a (by simp), ?_, ?_⟩
+    · exact ih hl'.2 (fun b hb => hf b (by simp [hb]))
+        (fun b hb c hc hne => hd b (by simp [hb]) c (by simp [hc]) hne)
+    · intro x hx y hy hxy
+      subst hxy
+      obtain ⟨b, hb, hxb⟩ := List.mem_flatMap.1 hy
+      have hne : a ≠ b := by
+        intro h; subst h; exact hl'.1 hb
+      exact hd a (by simp) b (by simp [hb]) hne x hx hxb
+
+theorem extend_nodup (P : Problem) (hT : P.tnodes.Nodup) (ps : List Int) (acc : Map) :
+    (extend P ps acc).Nodup := by
+  induction ps generalizing acc with
+  | nil => simp [extend]
+  | cons p ps ih =>
+    simp only [extend]
+    apply nodup_flatMap_of (hT.filter _)
+    · intro t _
+      exact List.Pairwise.map _ (fun a b hab h => hab (List.cons.inj h).2) (ih _)
+    · intro t _ t' _ hne x hx hx'
+      obtain ⟨m, _, rfl⟩ := List.mem_map.1 hx
+      obtain ⟨m', _, h⟩ := List.mem_map.1 hx'
+      have := (List.cons.inj h).1
+      simp only [Prod.mk.injEq, true_and] at this
+      exact hne this.symm
+
+theorem allMaps_nodup (P : Problem) (hT : P.tnodes.Nodup) : (allMaps P).Nodup :=
+  extend_nodup P hT _ _
+
+/-! ### graphs: the enumerator against `IsIndIsoOn` -/
+
+theorem joins_comm (u v : Int) : joins u v = joins v u := by
+  funext e; simp [joins, Bool.or_comm]
+
+theorem ecol_comm (g : Graph) (u v : Int) : g.ecol u v = g.ecol v u := by
+  simp [Graph.ecol, joins_comm u v]
+
+theorem lookup_of_mem {m : Map} (hn : (m.map Prod.fst).Nodup) {u t : Int} (h : (u, t) ∈ m) :
+    m.lookup u = some t := by
+  induction m with
+  | nil => simp at h
+  | cons x rest ih =>
+    obtain ⟨a, b⟩ := x
+    simp only [List.map_cons, List.nodup_cons, List.mem_map] at hn
+    rw [List.lookup_cons]
+    rcases List.mem_cons.1 h with h' | h'
+    · cases h'; simp
+    · have hne : u ≠ a := by
+        intro e; subst e; exact hn.1 ⟨(u, t), h', rfl⟩
+      have : (u == a) = false := by simpa using hne
+      rw [this]; exact ih hn.2 h'
+
+theorem toFun_of_mem {m : Map} (hn : (m.map Prod.fst).Nodup) {u t : Int} (h : (u, t) ∈ m) :
+    Map.toFun m u = t := by
+  simp [Map.toFun, lookup_of_mem hn h]
+
+theorem map_toFun_eq {m : Map} (hn : (m.map Prod.fst).Nodup) :
+    (m.map Prod.fst).map (fun u => (u, Map.toFun m u)) = m := by
+  rw [List.map_map]
+  conv => rhs; rw [← List.map_id m]
+  apply List.map_congr_left
+  intro x hx
+  obtain ⟨u, t⟩ := x
+  simp [toFun_of_mem hn hx]
+
+theorem pairwise_or {α} {R : α → α → Prop} {l : List α} (h : l.Pairwise R) {a b : α}
+    (ha : a ∈ l) (hb : b ∈ l) (hne : a ≠ b) : R a b ∨ R b a := by
+  induction h with
+  | nil => simp at ha
+  | cons hx _ ih =>
+    rcases List.mem_cons.1 ha with rfl | ha' <;> rcases List.mem_cons.1 hb with rfl | hb'
+    · exact absurd rfl hne
+    · exact Or.inl (hx _ hb')
+    · exact Or.inr (hx _ ha')
+    · exact ih ha' hb'
+
+theorem isMatch_toFun {g sg : Graph} {pred : NodePred} {S : List Int} {m : Map} (hS : S.Nodup)
+    (h : IsMatch (graphProblem g sg pred) S m) : IsIndIsoOn g sg pred S (Map.toFun m) := by
+  obtain ⟨hdom, hnode, hpair⟩ := h
+  have hn : (m.map Prod.fst).Nodup := by rw [hdom]; exact hS
+  have hmem : ∀ u ∈ S, (u, Map.toFun m u) ∈ m := by
+    intro u hu
+    rw [← hdom] at hu
+    obtain ⟨⟨u', t⟩, hx, rfl⟩ := List.mem_map.1 hu
+    simpa [toFun_of_mem hn hx] using hx
+  have key : ∀ u ∈ S, ∀ v ∈ S, u ≠ v →
+      Map.toFun m u ≠ Map.toFun m v ∧ g.ecol (Map.toFun m u) (Map.toFun m v) = sg.ecol u v := by
+    intro u hu v hv hne
+    have hne' : (u, Map.toFun m u) ≠ (v, Map.toFun m v) := fun e => hne (Prod.mk.inj e).1
+    rcases pairwise_or hpair (hmem u hu) (hmem v hv) hne' with h | h
+    · have := h.2
+      simp only [graphProblem, beq_iff_eq] at this
+      exact ⟨h.1, this⟩
+    · have := h.2
+      simp only [graphProblem, beq_iff_eq] at this
+      exact ⟨fun e => h.1 e.symm, by rw [ecol_comm g, ecol_comm sg]; exact this⟩
+  exact ⟨fun u hu => hnode _ (hmem u hu), fun u hu v hv hne => (key u hu v hv hne).1,
+    fun u hu v hv hne => (key u hu v hv hne).2⟩
+
+theorem isMatch_of_indIso {g sg : Graph} {pred : NodePred} {S : List Int} {f : Int → Int} (hS : S.Nodup)
+    (h : IsIndIsoOn g sg pred S f) : IsMatch (graphProblem g sg pred) S (S.map fun u => (u, f u)) := by
+  refine ⟨?_, ?_, ?_⟩
+  · rw [List.map_map]
+    conv => rhs; rw [← List.map_id S]
+    apply List.map_congr_left; intro u _; rfl
+  · intro x hx
+    obtain ⟨u, hu, rfl⟩ := List.mem_map.1 hx
+    exact h.node u hu
+  · rw [List.pairwise_map]
+    refine List.Pairwise.imp_of_mem ?_ hS
+    intro u v hu hv hne
+    exact ⟨h.inj u hu v hv hne, by simp [graphProblem, h.edge u hu v hv hne]⟩
+
+/-- membership in the enumeration on a node list `S` ⟺ the declarative spec -/
+theorem mem_isosOn_iff (g sg : Graph) (pred : NodePred) {S : List Int} (hS : S.Nodup) (m : Map) :
+    m ∈ isosOn (graphProblem g sg pred) S ↔ m.map Prod.fst = S ∧ IsIndIsoOn g sg pred S (Map.toFun m) := by
+  unfold isosOn
+  rw [mem_extend_iff]
+  constructor
+  · intro h; exact ⟨h.dom, isMatch_toFun hS h⟩
+  · rintro ⟨hdom, h⟩
+    have hn : (m.map Prod.fst).Nodup := by rw [hdom]; exact hS
+    have := isMatch_of_indIso hS h
+    rw [← hdom, map_toFun_eq hn] at this
+    rw [← hdom]; exact this
+
+theorem mem_allIsosP_iff (g sg : Graph) (pred : NodePred) (hs : sg.keys.Nodup) (m : Map) :
+    m ∈ allIsosP g sg pred ↔ m.map Prod.fst = sg.keys ∧ IsIndIsoP g sg pred (Map.toFun m) :=
+  mem_isosOn_iff g sg pred hs m
+
+theorem allIsosP_sound (g sg : Graph) (pred : NodePred) (hs : sg.keys.Nodup) (m : Map)
+    (h : m ∈ allIsosP g sg pred) : m.map Prod.fst = sg.keys ∧ IsIndIsoP g sg pred (Map.toFun m) :=
+  (mem_allIsosP_iff g sg pred hs m).1 h
+
+theorem allIsosP_complete (g sg : Graph) (pred : NodePred) (hs : sg.keys.Nodup) (f : Int → Int)
+    (h : IsIndIsoP g sg pred f) : (sg.keys.map fun u => (u, f u)) ∈ allIsosP g sg pred :=
+  (mem_allMaps_iff _ _).2 (isMatch_of_indIso hs h)
+
+theorem allIsosP_nodup (g sg : Graph) (pred : NodePred) (hg : g.keys.Nodup) : (allIsosP g sg pred).Nodup :=
+  allMaps_nodup _ hg
+
+/-! ### the class checker -/
+
+theorem autEquivB_iff (sg : Graph) (m m' : Map) : autEquivB sg m m' = true ↔ AutEquiv sg m m' := by
+  simp only [autEquivB, autEquivWith, AutEquiv, List.any_eq_true, beq_iff_eq]
+  constructor
+  · rintro ⟨a, ha, h⟩; exact ⟨a, ha, h.symm⟩
+  · rintro ⟨a, ha, h⟩; exact ⟨a, ha, h.symm⟩
+
+theorem pairwiseB_iff {α} (r : α → α → Bool) (l : List α) :
+    pairwiseB r l = true ↔ l.Pairwise (fun a b => r a b = true) := by
+  induction l with
+  | nil => simp [pairwiseB]
+  | cons a l ih => simp [pairwiseB, ih, List.all_eq_true]
+
+/-- **The checker accepts exactly the outputs the statement allows**: a subset of the full
+answer, without repetition, no two members equivalent under a symmetry of the pattern, and every
+member of the full answer equivalent to a member of the output.  (No group lemma is used.) -/
+theorem oneRepPerClass_iff (sg : Graph) (out full : List Map) :
+    oneRepPerClass sg out full = true ↔
+      (∀ m ∈ out, m ∈ full) ∧ out.Nodup
+      ∧ out.Pairwise (fun m m' => ¬ AutEquiv sg m m' ∧ ¬ AutEquiv sg m' m)
+      ∧ (∀ f ∈ full, ∃ m ∈ out, AutEquiv sg m f) := by
+  have hB : ∀ m m', autEquivWith (auts sg) sg.keys m m' = true ↔ AutEquiv sg m m' := autEquivB_iff sg
+  simp only [oneRepPerClass, Bool.and_eq_true, List.all_eq_true, List.any_eq_true, pairwiseB_iff,
+    List.contains_iff_mem, hB, bne_iff_ne, Bool.not_eq_true', ← Bool.not_eq_true]
+  constructor
+  · rintro ⟨⟨h1, h2⟩, h3⟩
+    refine ⟨h1, ?_, ?_, h3⟩
+    · exact h2.imp (fun h => h.1.1)
+    · exact h2.imp (fun h => ⟨h.1.2, h.2⟩)
+  · rintro ⟨h1, h2, h3, h4⟩
+    refine ⟨⟨h1, ?_⟩, h4⟩
+    have := h2.and h3
+    exact this.imp (fun h => ⟨⟨h.1, h.2.1⟩, h.2.2⟩)
+
+theorem coversUpToAut_iff (sg : Graph) (out full : List Map) :
+    coversUpToAut sg out full = true ↔
+      (∀ m ∈ out, m ∈ full) ∧ (∀ f ∈ full, ∃ m ∈ out, AutEquiv sg m f) := by
+  have hB : ∀ m m', autEquivWith (auts sg) sg.keys m m' = true ↔ AutEquiv sg m m' := autEquivB_iff sg
+  simp only [coversUpToAut, Bool.and_eq_true, List.all_eq_true, List.any_eq_true,
+    List.contains_iff_mem, hB]
+
+/-! ### maximum common induced subgraphs -/
+
+theorem mem_subsOfSize {α} (k : Nat) (l s : List α) :
+    s ∈ subsOfSize k l ↔ s.Sublist l ∧ s.length = k := by
+  induction l generalizing k s with
+  | nil =>
+    cases k with
+    | zero => simp [subsOfSize]
+    | succ k =>
+      simp only [subsOfSize, List.not_mem_nil, List.sublist_nil, false_iff]
+      rintro ⟨rfl, h⟩; simp at h
+  | cons a l ih =>
+    cases k with
+    | zero =>
+      simp only [subsOfSize, List.mem_singleton, List.length_eq_zero_iff]
+      constructor
+      · rintro rfl; simp
+      · exact fun h => h.2
+    | succ k =>
+      simp only [subsOfSize, List.mem_append, List.mem_map, ih]
+      constructor
+      · rintro (⟨s', ⟨hs, hl⟩, rfl⟩ | ⟨hs, hl⟩)
+        · exact ⟨hs.cons_cons a, by simp [hl]⟩
+        · exact ⟨hs.cons a, hl⟩
+      · rintro ⟨hs, hl⟩
+        cases hs with
+        | cons _ h => exact Or.inr ⟨h, hl⟩
+        | cons_cons _ h =>
+          rename_i s'
+          exact Or.inl ⟨s', ⟨h, by simpa using hl⟩, rfl⟩
+
+theorem searchDown_le (f : Nat → Bool) (n : Nat) : searchDown f n ≤ n := by
+  induction n with
+  | zero => simp [searchDown]
+  | succ n ih => simp only [searchDown]; split <;> omega
+
+theorem searchDown_spec (f : Nat → Bool) (n : Nat) : f (searchDown f n) = true ∨ searchDown f n = 0 := by
+  induction n with
+  | zero => simp [searchDown]
+  | succ n ih =>
+    simp only [searchDown]; split
+    · exact Or.inl (by assumption)
+    · exact ih
+
+theorem searchDown_max (f : Nat → Bool) (n k : Nat) (hk : k ≤ n) (hf : f k = true) :
+    k ≤ searchDown f n := by
+  induction n with
+  | zero => simp [searchDown]; omega
+  | succ n ih =>
+    simp only [searchDown]; split
+    · exact hk
+    · rename_i hn
+      have : k ≠ n + 1 := by intro e; subst e; exact hn hf
+      exact ih (by omega)
+
+theorem hasCommon_iff (P : Problem) (k : Nat) :
+    hasCommon P k = true ↔ ∃ S m, S.Sublist P.pnodes ∧ S.length = k ∧ IsMatch P S m := by
+  simp only [hasCommon, List.any_eq_true, mem_subsOfSize, Bool.not_eq_true', List.isEmpty_eq_false_iff_exists_mem,
+    isosOn, mem_extend_iff]
+  constructor
+  · rintro ⟨S, ⟨h1, h2⟩, m, hm⟩; exact ⟨S, m, h1, h2, hm⟩
+  · rintro ⟨S, m, h1, h2, hm⟩; exact ⟨S, ⟨h1, h2⟩, m, hm⟩
+
+theorem isMatch_length {P : Problem} {S : List Int} {m : Map} (h : IsMatch P S m) : m.length = S.length := by
+  rw [← h.dom]; simp
+
+theorem hasCommon_zero (P : Problem) : hasCommon P 0 = true :=
+  (hasCommon_iff P 0).2 ⟨[], [], List.nil_sublist _, rfl, ⟨rfl, by simp, List.Pairwise.nil⟩⟩
+
+theorem hasCommon_mcisSizeP (P : Problem) : hasCommon P (mcisSizeP P) = true := by
+  rcases searchDown_spec (hasCommon P) P.pnodes.length with h | h
+  · exact h
+  · unfold mcisSizeP; rw [h]; exact hasCommon_zero P
+
+theorem mem_allMCISP_iff (P : Problem) (m : Map) :
+    m ∈ allMCISP P ↔ IsCommon P m ∧ m.length = mcisSizeP P := by
+  simp only [allMCISP, List.mem_flatMap, mem_subsOfSize, isosOn, mem_extend_iff, IsCommon]
+  constructor
+  · rintro ⟨S, ⟨h1, h2⟩, hm⟩
+    have hd := hm.dom
+    subst hd
+    exact ⟨⟨h1, hm⟩, by simpa using h2⟩
+  · rintro ⟨⟨h1, hm⟩, h2⟩
+    exact ⟨_, ⟨h1, by simpa using h2⟩, hm⟩
+
+/-- every answer is a common induced subgraph of the announced size -/
+theorem allMCISP_sound (P : Problem) (m : Map) (h : m ∈ allMCISP P) :
+    IsCommon P m ∧ m.length = mcisSizeP P := (mem_allMCISP_iff P m).1 h
+
+/-- no common induced subgraph is larger than the announced size -/
+theorem allMCISP_max (P : Problem) (m : Map) (h : IsCommon P m) : m.length ≤ mcisSizeP P := by
+  have hl : (m.map Prod.fst).length ≤ P.pnodes.length := h.1.length_le
+  have : hasCommon P m.length = true :=
+    (hasCommon_iff P _).2 ⟨_, m, h.1, by simp, h.2⟩
+  exact searchDown_max _ _ _ (by simpa using hl) this
+
+/-- every common induced subgraph of the maximum size is among the answers -/
+theorem allMCISP_complete (P : Problem) (m : Map) (h : IsCommon P m) (hk : m.length = mcisSizeP P) :
+    m ∈ allMCISP P := (mem_allMCISP_iff P m).2 ⟨h, hk⟩
+
+/-- the announced size is attained: the answer list is never empty -/
+theorem allMCISP_ne_nil (P : Problem) : allMCISP P ≠ [] := by
+  obtain ⟨S, m, h1, h2, hm⟩ := (hasCommon_iff P _).1 (hasCommon_mcisSizeP P)
+  have : m ∈ allMCISP P := by
+    have hd := hm.dom
+    subst hd
+    exact allMCISP_complete P m ⟨h1, hm⟩ (by simpa using h2)
+  intro e; rw [e] at this; simp at this
+
+theorem allMCISP_nodup (P : Problem) (hT : P.tnodes.Nodup) (hS : P.pnodes.Nodup) : (allMCISP P).Nodup := by
+  unfold allMCISP
+  have subs_nodup : ∀ (k : Nat) (l : List Int), l.Nodup → (subsOfSize k l).Nodup := by
+    intro k l
+    induction l generalizing k with
+    | nil => cases k <;> simp [subsOfSize]
+    | cons a l ih =>
+      intro hl
+      cases k with
+      | zero => simp [subsOfSize]
+      | succ k =>
+        have hl' := List.nodup_cons.1 hl
+        simp only [subsOfSize]
+        rw [List.nodup_append]
+        refine ⟨List.Pairwise.map _ (fun x y hxy h => hxy (List.cons.inj h).2) (ih k hl'.2), ih _ hl'.2, ?_⟩
+        intro x hx y hy hxy
+        subst hxy
+        obtain ⟨s', _, rfl⟩ := List.mem_map.1 hx
+        have := ((mem_subsOfSize _ _ _).1 hy).1
+        exact hl'.1 (this.subset (by simp))
+  apply nodup_flatMap_of (subs_nodup _ _ hS)
+  · intro S _; exact extend_nodup P hT _ _
+  · intro S _ S' _ hne m hm hm'
+    have h1 := ((mem_extend_iff P S m).1 hm).dom
+    have h2 := ((mem_extend_iff P S' m).1 hm').dom
+    exact hne (h1.symm.trans h2)
+
 end Iso
